@@ -220,7 +220,14 @@ class ListGetInt(OpSpec):
         a = alpha_list(tl)
         i = op["i"]
         n = len(a["rows"])
-        res = lib_call(lambda: tl[i])
+        if op.get("np_int"):
+            import numpy as np
+
+            ix = np.int64(i)  # an index that came out of numpy / pandas arithmetic
+            out.probes.append("get_int_numpy_integer")
+        else:
+            ix = i
+        res = lib_call(lambda: tl[ix])
         in_range = -n <= i < n
         if not in_range:
             if res.ok:
